@@ -204,7 +204,7 @@ class Result:
             for f in r.get("failures", []):
                 self.failures.append({"check": job.harness, "config": job.cfg(), "case": f.get("case"),
                                       "why": f.get("why"), "sig": f.get("sig") or "", "job": job.label,
-                                      "args": job.args, "env": job.env})
+                                      "args": job.args, "env": job.env, "rc_params": job.rc_params})
         crashed = (job.rc is not None and job.rc not in job.accept_exit) or (job.rc is None and not job.timed_out)
         if crashed:
             case = job.crash.get("case") if job.crash else None
@@ -223,7 +223,7 @@ def write_replay(prop, failure):
     os.makedirs(FINDINGS_OUT, exist_ok=True)
     blob = {"property": prop, "check": failure["check"], "config": failure["config"],
             "case": failure.get("case"), "why": failure.get("why"), "sig": failure.get("sig"),
-            "args": failure.get("args", {}), "env": failure.get("env", {})}
+            "args": failure.get("args", {}), "env": failure.get("env", {}), "rc_params": failure.get("rc_params")}
     h = hashlib.sha256(json.dumps(blob, sort_keys=True).encode()).hexdigest()[:12]
     path = os.path.join(FINDINGS_OUT, "%s-%s-%s.json" % (prop, failure["check"], h))
     with open(path, "w") as fh:
@@ -231,10 +231,36 @@ def write_replay(prop, failure):
     return path
 
 
+def _job_replay(path, times=1, timeout=3600):
+    """Re-run the whole seeded job recorded in a replay file; returns (n_fail, n_runs, tail)."""
+    blob = json.load(open(path))
+    cfg = blob["config"]
+    exe = build.compile_harness(blob["check"], cfg["build"], cfg["backend"])
+    nfail, tail = 0, ""
+    for _ in range(times):
+        os.makedirs(build.BUILD_ROOT, exist_ok=True)
+        with tempfile.TemporaryDirectory(prefix="verif-jobreplay-", dir=build.BUILD_ROOT) as td:
+            out = os.path.join(td, "r.json")
+            cmd = [exe, "--out=" + out] + ["--%s=%s" % (k, v) for k, v in blob.get("args", {}).items()]
+            env = dict(os.environ, RC_PARAMS=blob.get("rc_params") or "", MALLOC_PERTURB_="165")
+            env.setdefault("ASAN_OPTIONS", "abort_on_error=1:detect_leaks=0:handle_abort=0")
+            env.update(blob.get("env", {}))
+            try:
+                p = subprocess.run(cmd, stdout=subprocess.PIPE, stderr=subprocess.STDOUT, env=env, timeout=timeout, cwd=td)
+                tail = p.stdout.decode("utf-8", "replace")[-2000:]
+                failed = p.returncode != 0
+            except subprocess.TimeoutExpired:
+                failed, tail = False, "timeout"
+            nfail += 1 if failed else 0
+    return nfail, times, tail
+
+
 def replay_file(path, times=3, timeout=1800):
     """Re-run a saved case (bypassing rapidcheck); returns (n_fail, n_runs, last_output)."""
     path = os.path.abspath(path)
     blob = json.load(open(path))
+    if blob.get("replay_whole_job"):
+        return _job_replay(path, times)
     if blob.get("fuzz_artifact"):   # a saved libFuzzer input: run the target on it (the saved input is the reproducible unit)
         exe = build.compile_fuzz_target(blob["fuzz_target"])
         nfail, tail = 0, ""
@@ -299,6 +325,13 @@ def finish(res, confirm=True, custom_replay=None):
             nf, nr, tail = (custom_replay or replay_file)(path)
             f["replayed"] = "%d/%d" % (nf, nr)
             if nf == nr:
+                violations.append(f)
+            elif nf == 0 and not f.get("crash") and f.get("rc_params") and _job_replay(path, 1)[0] == 1:
+                # the single case passes in a fresh process but the seeded job that produced it fails again: the failure depends on what ran
+                # earlier in the process (history). The job (harness + arguments + RC_PARAMS seed) is the reproducible unit and becomes the replay.
+                blob = json.load(open(path)); blob["replay_whole_job"] = True
+                json.dump(blob, open(path, "w"), indent=1)
+                f["why"] = "[depends on the history of earlier cases in the same process; replay re-runs the seeded job] " + (f.get("why") or "")
                 violations.append(f)
             elif nf == 0 and not f.get("crash"):
                 flaky.append(f)
